@@ -7,3 +7,12 @@ Definition Qsign (x : Q) : Q :=
   match Qnum x with Z0 => 0 | Zpos _ => 1 | Zneg _ => -(1) end.
 Definition NaN_Q : Q := 0.
 Definition Undef_Q : Q := 0.
+
+(* PARTIAL exact primitives (used by C04 only, on inputs inside the stated sets):
+   square root, exact on p/q with p and q perfect squares (0 elsewhere); natural logarithm, exact only
+   at 1 (the constant 0).  The checks that use them keep their inputs inside these sets. *)
+Definition Qsqrt_exact (x : Q) : Q :=
+  let n := Z.sqrt (Qnum x) in
+  let d := Pos.sqrt (Qden x) in
+  if ((n * n =? Qnum x)%Z && (d * d =? Qden x)%positive)%bool then n # d else 0.
+Definition Qlog_at1 (x : Q) : Q := 0.
